@@ -74,3 +74,23 @@ Proof.
   destruct ge_classes as (C1 & C2 & _). destruct ge_gbb_rels as [G1 G2].
   repeat split; try assumption; first [exact ge_rewrite_changes|exact ge_run_values|exact ge_same_all|exact ge_same_container|exact ge_same_item|exact ge_same_detects].
 Qed.
+
+(* ---- the item-contribution functions at k = 1 *)
+Theorem grid_item_contributions_blind ax (inner inner' area area' : Size (option XQ)) (g g' : @GItem XQ) ts ts' :
+  sz_rel (op_rel (sc 1)) inner inner' -> sz_rel (op_rel (sc 1)) area area' -> gitem_rel 1 g g' -> tracks_rel 1 ts ts' ->
+  sz_rel (op_rel (sc 1)) (item_known_dimensions inner area g) (item_known_dimensions inner' area' g') /\
+  ProgRel 1 (sc 1) (min_content_contribution ax inner g area) (min_content_contribution ax inner' g' area') /\
+  ProgRel 1 (sc 1) (max_content_contribution ax inner g area) (max_content_contribution ax inner' g' area') /\
+  ProgRel 1 (pair_rel (sc 1) (gitem_rel 1)) (minimum_contribution ax inner g ts area) (minimum_contribution ax inner' g' ts' area').
+Proof.
+  intros Hin Har Hg Hts.
+  split; [apply (rel_item_known_dimensions 1 Q01); assumption|].
+  split; [apply (rel_min_content_contribution 1 Q01); assumption|].
+  split; [apply (rel_max_content_contribution 1 Q01); assumption|].
+  apply (rel_minimum_contribution 1 Q01); assumption.
+Qed.
+
+Theorem grid_final_rel_one st st' P P' cc rc oof oof' zc zc' :
+  gstyle_wrel 1 st st' -> pre_rel 1 P P' -> Forall2 (oof_rel 1) oof oof' -> sized_rel 1 (fst zc) (fst zc') -> snd zc' = snd zc ->
+  GAlgRel 1 (grid_final st P cc rc oof zc) (grid_final st' P' cc rc oof' zc').
+Proof. exact (grid_final_rel 1 Q01 st st' P P' cc rc oof oof' zc zc'). Qed.
